@@ -39,4 +39,149 @@ def compute {Cfg Q R} [BEq Q] (f : Cfg → Q → R) (o : Obj Cfg Q R) (q : Q) : 
   | some _ => o
   | none => { o with stored := o.stored ++ [(q, f o.config q)], cacheSize := o.cacheSize + 1 }
 
+
+/-! ## Field level: the object as its `__dict__`
+
+Mirror of /repo/phasegen/distributions.py `Coalescent.__setstate__` / `__getstate__` / `to_json` / `drop_cache`
+(l.2770-2819), /repo/phasegen/serialization.py and /repo/phasegen/inference.py `__getstate__` / `__setstate__`
+(l.177-201) and the `cached_property` `x0` (l.170-175).
+
+An object is its insertion-ordered `__dict__`.  `cached_property` values live in `__dict__` (e.g. `x0`, the state
+spaces, the result distributions), so they are saved with everything else.
+
+Abstractions
+* values are immutable (`copy.deepcopy` is the identity on them; aliasing between values is not modelled);
+* the JSON codec (jsonpickle) is a parameter with `decode (encode d) = some d`; dill is `Val.pickled`:
+  `dill.loads(dill.dumps(v)) = v`;
+* a state space is its identity and the size of its rate-matrix caches (`S` and `_cache`): `drop_cache` empties them;
+* `copy.deepcopy(obj)` of an object with `__getstate__` / `__setstate__` is `__setstate__(__getstate__())` on an
+  instance made by `__new__` (empty `__dict__`), which is how `copy` and jsonpickle restore objects.
+-/
+
+/-- the values stored in a `__dict__` -/
+inductive Val where
+  /-- a number -/
+  | rat (q : Rat)
+  | bool (b : Bool)
+  | str (s : String)
+  | none
+  /-- a callable (by name) -/
+  | fn (name : String)
+  /-- `dill.dumps(v)` -/
+  | pickled (v : Val)
+  /-- an opaque sub-object (demography, model, a result distribution, the rng with its state, …) by content -/
+  | obj (id : String)
+  /-- a state space with `cached` cached rate matrices -/
+  | space (id : String) (cached : Nat)
+  /-- a parameter dict `name ↦ value` (`x0`, `params_inferred`) -/
+  | point (p : List (String × Rat))
+  /-- an array of numbers -/
+  | rats (l : List Rat)
+  deriving DecidableEq, Repr
+
+/-- `__dict__` -/
+abbrev PyDict := Dict String Val
+
+/-- `d.pop(k, None)` -/
+def pop (d : PyDict) (k : String) : PyDict := d.filter fun p => !(p.1 == k)
+
+/-- `StateSpace.drop_cache()` (other values have no caches) -/
+def Val.dropCache : Val → Val
+  | .space id _ => .space id 0
+  | v => v
+
+/-- the two attributes `Coalescent.drop_cache` and `Coalescent.__getstate__` look at -/
+def spaceKeys : List String := ["lineage_counting_state_space", "block_counting_state_space"]
+
+/-- `for name in […]: if name in d: d[name].drop_cache()` -/
+def dropCaches (d : PyDict) : PyDict := d.map fun p => if spaceKeys.contains p.1 then (p.1, p.2.dropCache) else p
+
+/-- `Coalescent.__getstate__`: a deep copy of `__dict__` whose state spaces have their caches dropped -/
+def getstateCoalescent (d : PyDict) : PyDict := dropCaches d
+
+inductive SetVariant where
+  /-- `self.__dict__.update(state)` -/
+  | current
+  /-- seeded defect: `self.__dict__.update(state | defaults)` with `defaults = dict(start_time=0, regularize=True)` -/
+  | defaultsOverride
+  deriving DecidableEq, Repr
+
+def coalescentDefaults : PyDict := [("start_time", .rat 0), ("regularize", .bool true)]
+
+/-- `Coalescent.__setstate__(state)` on an object whose `__dict__` is `self` -/
+def setstateCoalescent (v : SetVariant) (self state : PyDict) : PyDict :=
+  match v with
+  | .current => Dict.union self state
+  | .defaultsOverride => Dict.union self (Dict.union state coalescentDefaults)
+
+/-- `copy.deepcopy(coalescent)` -/
+def deepcopyCoalescent (v : SetVariant) (d : PyDict) : PyDict := setstateCoalescent v [] (getstateCoalescent d)
+
+/-- `Coalescent.to_json`: `other = copy.deepcopy(self); other.drop_cache(); jsonpickle.encode(other)` (which calls
+`other.__getstate__()`); returns the JSON and the `__dict__` of `self` after the call -/
+def toJsonCoalescent {J} (v : SetVariant) (encode : PyDict → J) (d : PyDict) : J × PyDict :=
+  let other := dropCaches (deepcopyCoalescent v d)
+  (encode (getstateCoalescent other), d)
+
+/-- `Coalescent.from_json` -/
+def fromJsonCoalescent {J} (v : SetVariant) (decode : J → Option PyDict) (j : J) : Option PyDict :=
+  (decode j).map (setstateCoalescent v [])
+
+inductive GetVariant where
+  | current
+  /-- seeded defect: `state.pop('x0', None)` ("derived, re-evaluated on demand") -/
+  | dropsCachedX0
+  deriving DecidableEq, Repr
+
+/-- the callables that are replaced by dill pickles -/
+def callableKeys : List String := ["coal", "loss", "resample"]
+
+/-- `state[f'{key}_pickled'] = dill.dumps(state[key]); state.pop(key)` (`KeyError` = `none`) -/
+def pickleKey (state : PyDict) (key : String) : Option PyDict :=
+  match Dict.get? state key with
+  | some v => some (pop (Dict.insert state (key ++ "_pickled") (.pickled v)) key)
+  | Option.none => Option.none
+
+/-- `Inference.__getstate__` -/
+def getstateInference (v : GetVariant) (d : PyDict) : Option PyDict :=
+  let state := match v with
+    | .current => d
+    | .dropsCachedX0 => pop d "x0"
+  callableKeys.foldlM pickleKey state
+
+/-- `setattr(self, key, dill.loads(state[f'{key}_pickled'])); self.__dict__.pop(f'{key}_pickled')` -/
+def unpickleKey (state self : PyDict) (key : String) : Option PyDict :=
+  match Dict.get? state (key ++ "_pickled") with
+  | some (.pickled v) => some (pop (Dict.insert self key v) (key ++ "_pickled"))
+  | _ => Option.none
+
+/-- `Inference.__setstate__(state)` on an object whose `__dict__` is `self` -/
+def setstateInference (self state : PyDict) : Option PyDict :=
+  callableKeys.foldlM (unpickleKey state) (Dict.union self state)
+
+/-- `Inference.to_json` (`Serializable.to_json`: jsonpickle calls `__getstate__`); the JSON and the `__dict__` of
+`self` after the call -/
+def toJsonInference {J} (v : GetVariant) (encode : PyDict → J) (d : PyDict) : Option J × PyDict :=
+  ((getstateInference v d).map encode, d)
+
+/-- `Inference.from_json` -/
+def fromJsonInference {J} (decode : J → Option PyDict) (j : J) : Option PyDict :=
+  (decode j).bind (setstateInference [])
+
+/-- Reading the `cached_property` `x0`: the value stored in `__dict__` if there is one, else `self._x0` if it is not
+`None`, else `self._sample()`, which draws from `self._rng`.  `draw rng = (point drawn, rng afterwards)`.
+Returns the value and the `__dict__` afterwards (value stored, generator advanced). -/
+def accessX0 (draw : Val → Val × Val) (d : PyDict) : Val × PyDict :=
+  match Dict.get? d "x0" with
+  | some v => (v, d)
+  | Option.none =>
+    match Dict.get? d "_x0" with
+    | some Val.none | Option.none =>
+      let (p, rng') := draw ((Dict.get? d "_rng").getD Val.none)
+      (p, Dict.insert (Dict.insert d "_rng" rng') "x0" p)
+    | some v => (v, Dict.insert d "x0" v)
+
+/-- the start point of an inference object -/
+def x0Of (d : PyDict) (draw : Val → Val × Val) : Val := (accessX0 draw d).1
+
 end PG.Serialize
